@@ -16,6 +16,10 @@ import Proofs.C01.EntrySecp
 import Proofs.C01.Endo
 import Proofs.C01.EndoSecp
 import Proofs.C01.Sec
+import Proofs.C01.Entry2
+import Proofs.C01.CapstoneEntry2
+import Proofs.C01.Ctor
+import Proofs.C01.CapstoneCtor
 /-!
 # C01 — curve and field arithmetic compute exactly the group law (DESIGN.md §3 C01)
 
@@ -684,5 +688,179 @@ theorem toy_cofactor_one : ∀ g : Pt 43 Toy.toyC.toCurveGroup, Toy.toyC.n • g
 example : OpsHom (opsSub Toy.toyOk) (EC.ops Toy.toyC) (Subtype.val : SubPt 43 Toy.toyC → Point) := Toy.toy_opsHom
 example (x : ℤ) : ((opsSub Toy.toyOk).liftX x).map Subtype.val = (EC.ops Toy.toyC).liftX x :=
   ops_sub_liftX_is_ec_ops Toy.toyOk (by decide) Toy.toy_hcof Toy.toy_delta x
+
+/-! ## wave 5 — the remaining entry points (`multi_mult_var`, `_sum_var`, `_tweak_add_var`) and the constructors -/
+section Entry2
+variable {α β G : Type} [AddCommGroup G]
+
+/-- `multi_mult_var(scalars, points, ec)` (pure-Python path, EVERY curve: the multi-scalar route never uses the
+endomorphism): what it answers is `Σ sᵢ • Qᵢ`, every integer scalars (negative, `≥ n`, multiples of `n`), any number of
+terms (both sides of the wNAF / Bos–Coster dispatch), infinity among the points; `lsum ss gs = Σ sᵢ • gᵢ` -/
+theorem multi_mult_entry (c : CurveCtx α β) (L : JacRel c.o G) (hf : L.Functional) (hsel : SelectOk c.sel)
+    (hfw : 1 ≤ c.fixedW) (hn0 : 0 < c.n) (scalars : List ℤ) {points : List β} {gs : List G} {A : β}
+    (hpts : List.Forall₂ L.RA points gs) (hn : ∀ g ∈ gs, (c.n : ℤ) • g = 0)
+    (h : multiMultEntry c scalars points = some A) : L.RA A (lsum scalars gs) :=
+  multiMultEntry_spec c L hf hsel hfw hn0 scalars hpts hn h
+
+/-- BY CONSTRUCTION of the model: a length mismatch or a point failing `is_on_curve` is refused (the real refusal is
+tied by the `curve.entry.*` streams and the `offcurve.refused` oracle) -/
+theorem multi_mult_entry_refuses (c : CurveCtx α β) (scalars : List ℤ) (points : List β)
+    (hbad : scalars.length ≠ points.length ∨ ∃ Q ∈ points, c.onCurve Q ≠ some true) :
+    multiMultEntry c scalars points = none := multiMultEntry_refuses c scalars points hbad
+
+/-- `_sum_var(points, ec)` (pure-Python path) ANSWERS on every list of points passing `is_on_curve`, with `Σ Qᵢ`;
+`AffRel` = what `add_aff_var` / `is_on_curve` owe the relation, discharged for btclib's arithmetic in `sum_entry_ec` -/
+theorem sum_entry (c : CurveCtx α β) (L : JacRel c.o G) (F : AffRel c L) {points : List β} {gs : List G}
+    (hpts : List.Forall₂ L.RA points gs) (hon : ∀ Q ∈ points, c.onCurve Q = some true) :
+    ∃ A, sumEntry c points = some A ∧ L.RA A gs.sum := sumEntry_spec c L F hpts hon
+
+/-- BY CONSTRUCTION of the model -/
+theorem sum_entry_refuses (c : CurveCtx α β) (points : List β) (hbad : ∃ Q ∈ points, c.onCurve Q ≠ some true) :
+    sumEntry c points = none := sumEntry_refuses c points hbad
+
+/-- `_tweak_add_var(P, t, ec)` (pure-Python path): `P + t • G` for EVERY integer `t`, GIVEN that `mult(·, G)` is the
+group law (`hmult`; discharged by `mult_entry_ec` in `tweak_add_entry_ec`, by `mult_entry_secp256k1` on secp256k1) -/
+theorem tweak_add_entry (c : CurveCtx α β) (L : JacRel c.o G) (F : AffRel c L) (lam : ℤ) {gG : G}
+    (hnG : (c.n : ℤ) • gG = 0) (hmult : ∀ (m : ℤ) (T : β), multEntry c lam m c.G = some T → L.RA T (m • gG))
+    (t : ℤ) {P A : β} {g : G} (hP : L.RA P g) (h : tweakAddEntry c lam P t = some A) : L.RA A (g + t • gG) :=
+  tweakAddEntry_spec c L F lam hnG hmult t hP h
+
+/-- BY CONSTRUCTION of the model -/
+theorem tweak_add_entry_refuses (c : CurveCtx α β) (lam : ℤ) (P : β) (t : ℤ) (hoff : c.onCurve P ≠ some true) :
+    tweakAddEntry c lam P t = none := tweakAddEntry_refuses c lam P t hoff
+end Entry2
+
+example : lsum [2, -3] [(5 : ℤ), 7] = -11 := by decide
+
+section Entry2Ec
+variable {p : ℕ} [Fact p.Prime]
+
+/-- `ec.is_on_curve(Q)` answers `True` EXACTLY on the reduced pairs that are infinity (`y = 0`) or a nonsingular
+point of Mathlib's curve over `ZMod p` (odd prime `p`): an off-curve or out-of-range pair never passes -/
+theorem is_on_curve_iff_valid {c : CurveGroup} (hp : c.p = (p : ℤ)) (hp2 : p ≠ 2) (Q : Point) :
+    isOnCurveX c Q = some true ↔ AValid p c Q ∧ RedA c Q :=
+  ⟨isOnCurveX_valid hp hp2, fun h => isOnCurveX_of_valid hp h.1 h.2⟩
+
+/-- **`multi_mult_var` on btclib's arithmetic, every curve** (`H` any subgroup without 2-torsion holding the points) -/
+theorem multi_mult_entry_ec (C : Curve) (hC : C.p = (p : ℤ)) (H : AddSubgroup (Pt p C.toCurveGroup))
+    (hH : NoTwoTorsionIn H) (hn0 : 0 < C.n) (scalars : List ℤ) (points : List Point) (A : Point)
+    (hpts : ∀ Q ∈ points, AValid p C.toCurveGroup Q ∧ absA p C.toCurveGroup Q ∈ H)
+    (hn : ∀ Q ∈ points, C.n • absA p C.toCurveGroup Q = 0)
+    (h : multiMultEntry (ctxOf C) scalars points = some A) :
+    AValid p C.toCurveGroup A ∧ absA p C.toCurveGroup A = lsum scalars (points.map (absA p C.toCurveGroup)) :=
+  multiMultEntry_ec C hC H hH hn0 scalars points A hpts hn h
+
+/-- **`_sum_var` on btclib's arithmetic**: ANSWERS, with a valid pair denoting `Σ Qᵢ` -/
+theorem sum_entry_ec (C : Curve) (hC : C.p = (p : ℤ)) (hp2 : p ≠ 2) (H : AddSubgroup (Pt p C.toCurveGroup))
+    (hH : NoTwoTorsionIn H) (points : List Point) (hon : ∀ Q ∈ points, isOnCurveX C.toCurveGroup Q = some true)
+    (hpts : ∀ Q ∈ points, absA p C.toCurveGroup Q ∈ H) :
+    ∃ A, sumEntry (ctxOf C) points = some A ∧ AValid p C.toCurveGroup A ∧
+      absA p C.toCurveGroup A = (points.map (absA p C.toCurveGroup)).sum :=
+  sumEntry_ec C hC hp2 H hH points hon hpts
+
+/-- **`_tweak_add_var` on btclib's arithmetic, every curve but secp256k1**: `P + t • G`, every integer `t`, any blind -/
+theorem tweak_add_entry_ec (C : Curve) (hC : C.p = (p : ℤ)) (hp2 : p ≠ 2) (H : AddSubgroup (Pt p C.toCurveGroup))
+    (hH : NoTwoTorsionIn H) (hsecp : (ctxOf C).isSecp = false) (hn0 : 0 < C.n) (lam : ℤ)
+    (hlam : (lam : ZMod p) ≠ 0) (t : ℤ) (P A : Point) (hP : AValid p C.toCurveGroup P)
+    (hPH : absA p C.toCurveGroup P ∈ H) (hgy : C.gy ≠ 0) (hG : AValid p C.toCurveGroup C.G)
+    (hGH : absA p C.toCurveGroup C.G ∈ H) (hnG : C.n • absA p C.toCurveGroup C.G = 0)
+    (h : tweakAddEntry (ctxOf C) lam P t = some A) :
+    AValid p C.toCurveGroup A ∧
+      absA p C.toCurveGroup A = absA p C.toCurveGroup P + t • absA p C.toCurveGroup C.G :=
+  tweakAddEntry_ec C hC hp2 H hH hsecp hn0 lam hlam t P A hP hPH hgy hG hGH hnG h
+end Entry2Ec
+
+section Entry2Secp
+open Btc.E2E
+
+/-- `multi_mult_var` on secp256k1's pure-Python route, points in `⟨G⟩`, NO hypothesis about the curve -/
+theorem multi_mult_entry_secp256k1 (scalars : List ℤ) (points : List Point) (A : Point)
+    (hpts : ∀ Q ∈ points, AValid secp256k1_p cS Q ∧ absA secp256k1_p cS Q ∈ HG)
+    (h : multiMultEntry (ctxOf EC.secp256k1) scalars points = some A) :
+    AValid secp256k1_p cS A ∧ absA secp256k1_p cS A = lsum scalars (points.map (absA secp256k1_p cS)) :=
+  multiMultEntry_secp256k1 scalars points A hpts h
+
+theorem sum_entry_secp256k1 (points : List Point) (hon : ∀ Q ∈ points, isOnCurveX cS Q = some true)
+    (hpts : ∀ Q ∈ points, absA secp256k1_p cS Q ∈ HG) :
+    ∃ A, sumEntry (ctxOf EC.secp256k1) points = some A ∧ AValid secp256k1_p cS A ∧
+      absA secp256k1_p cS A = (points.map (absA secp256k1_p cS)).sum := sumEntry_secp256k1 points hon hpts
+
+theorem tweak_add_entry_secp256k1 (lam : ℤ) (hlam : (lam : ZMod secp256k1_p) ≠ 0) (t : ℤ) (P A : Point)
+    (hP : AValid secp256k1_p cS P) (hPH : absA secp256k1_p cS P ∈ HG)
+    (h : tweakAddEntry (ctxOf EC.secp256k1) lam P t = some A) :
+    AValid secp256k1_p cS A ∧
+      absA secp256k1_p cS A = absA secp256k1_p cS P + t • absA secp256k1_p cS EC.secp256k1.G :=
+  tweakAddEntry_secp256k1 lam hlam t P A hP hPH h
+end Entry2Secp
+
+/-! ### constructors: the model IS the source's chain of checks (regenerated each run), and what acceptance means -/
+
+/-- `_is_prime` of the model = the return expression translated from `curve_group._is_prime` -/
+theorem is_prime_is_generated (x : ℤ) : isPrimeFermat x = Gen.C01Ctor.is_prime x := isPrimeFermat_eq_generated x
+
+/-- `double_jac` / `_double_jac_helper` of the SHARED model (`Btc.EC.doubleJac`, what T1 is proved about) = the formula
+translated from the source at the flags translated from `CurveGroup.__init__` (`_a_is_zero = a == 0`,
+`_a_is_minus_3 = a == p - 3`): all three spellings of `a·Z⁴`, every curve, every triple -/
+theorem double_jac_is_generated (c : CurveGroup) (Q : JacPoint) (QZ2 : ℤ) :
+    doubleJac c Q = Gen.C01Ctor.double_jac_helper (Gen.C01Ctor.a_is_zero c.p c.a) (Gen.C01Ctor.a_is_minus_3 c.p c.a)
+        c.p c.a Q.1 Q.2.1 Q.2.2 (Gen.C01Ctor.double_jac_qz2 (Gen.C01Ctor.a_is_zero c.p c.a) c.p Q.2.2) ∧
+    doubleJacHelper c Q QZ2 = Gen.C01Ctor.double_jac_helper (Gen.C01Ctor.a_is_zero c.p c.a)
+        (Gen.C01Ctor.a_is_minus_3 c.p c.a) c.p c.a Q.1 Q.2.1 Q.2.2 QZ2 ∧
+    standInQ c = Gen.C01Ctor.stand_in_q c.p ∧ standInR c = Gen.C01Ctor.stand_in_r c.p :=
+  ⟨doubleJac_eq_generated c Q, doubleJacHelper_eq_generated c Q QZ2, rfl, rfl⟩
+
+/-- `CurveGroup.__init__`: the model refuses exactly what the chain of `if …: raise` read off the source refuses, and
+the SAME check first (`refusal` = the message fragment of the refusing check, `none` = accepted) -/
+theorem new_curve_group_is_generated (p a b : ℤ) :
+    refusal (newCurveGroup p a b) = Gen.C01Ctor.group_checks p a b := newCurveGroup_eq_generated p a b
+
+/-- `Curve.__init__` once the generator has been accepted: same statement, `_assert_mov_resistant` included -/
+theorem new_curve_is_generated (p a b gx gy n h : ℤ) (weaknessCheck orderCheck : Bool) (g : CurveGroup)
+    (hg : newCurveGroup p a b = .ok g) (hx : ¬ (gy ≠ 0 ∧ ¬ (0 ≤ gx ∧ gx < p)))
+    (hon : isOnCurve g (gx, gy) = some true) :
+    refusal (newCurve p a b gx gy n h weaknessCheck orderCheck) =
+      Gen.C01Ctor.curve_checks p n h gy (multJacVar (ecOps g) n.toNat (gx, gy, 1)).2.2 weaknessCheck orderCheck :=
+  newCurve_eq_generated p a b gx gy n h weaknessCheck orderCheck g hg hx hon
+
+/-- `CurveGroup(p, a, b)` is accepted EXACTLY on: Fermat-prime `p`, `0 ≤ a < p`, `0 ≤ b < p`, `4a³ + 27b² ≢ 0` -/
+theorem new_curve_group_accepted_iff (p a b : ℤ) (g : CurveGroup) :
+    newCurveGroup p a b = .ok g ↔
+      isPrimeFermat p = true ∧ (0 ≤ a ∧ a < p) ∧ (0 ≤ b ∧ b < p) ∧ (4 * a * a * a + 27 * b * b) % p ≠ 0 ∧
+        g = { p := p, a := a, b := b } := newCurveGroup_ok_iff p a b g
+
+/-- what `Curve(…)` being accepted means, check by check -/
+theorem new_curve_accepted (p a b gx gy n h : ℤ) (wc oc : Bool) (C : Curve)
+    (hC : newCurve p a b gx gy n h wc oc = .ok C) :
+    newCurveGroup p a b = .ok C.toCurveGroup ∧
+      C = { p := p, a := a, b := b, gx := gx, gy := gy, n := n, h := h } ∧
+      (0 ≤ gx ∧ gx < p) ∧ gy ≠ 0 ∧ isOnCurve C.toCurveGroup (gx, gy) = some true ∧
+      isPrimeFermat n = true ∧
+      (h < 2 → p + 1 - (Nat.sqrt (4 * p).toNat : ℤ) ≤ n ∧ n ≤ p + 1 + (Nat.sqrt (4 * p).toNat : ℤ)) ∧
+      (oc = true → (multJacVar (ecOps C.toCurveGroup) n.toNat (gx, gy, 1)).2.2 = 0) ∧
+      h = (1 + (Nat.sqrt (4 * p).toNat : ℤ) + p) / n ∧ n ≠ p ∧ (wc = true → movWeak p n = false) :=
+  newCurve_ok p a b gx gy n h wc oc C hC
+
+/-- `_mult_jac_var` (the constructor's order test) on btclib's arithmetic with NO 2-torsion side condition -/
+theorem mult_jac_var_ec_all {p : ℕ} [Fact p.Prime] {c : CurveGroup} (hp : c.p = (p : ℤ)) (m : ℕ) (Q : JacPoint)
+    (hQ : JValid p c Q) :
+    JValid p c (multJacVar (ecOps c) m Q) ∧ absJ p c (multJacVar (ecOps c) m Q) = (m : ℤ) • absJ p c Q :=
+  multJacVar_ec_all hp m Q hQ
+
+/-- **a malformed curve is refused**: whatever `Curve(…, order_check=True)` accepts — GIVEN that `p` and `n` are truly
+prime, which the code's Fermat base-2 test does not establish (known finding `curvegroup.fermat_pseudoprime`) — has
+`Δ ≠ 0` and meets `CurveOk`: odd `p`, odd prime `n`, generator a reduced nonsingular point `≠ ∞` with `n • G = 0` in
+Mathlib's point group.  `CurveOk` is the hypothesis of `ec_ops_lawful(_group)`, i.e. of every scheme-level theorem. -/
+theorem new_curve_is_curve_ok {p' : ℕ} [Fact p'.Prime] (p a b gx gy n h : ℤ) (wc : Bool) (C : Curve)
+    (hp : p = (p' : ℤ)) (hn : Nat.Prime n.toNat) (hC : newCurve p a b gx gy n h wc true = .ok C) :
+    CurveOk p' C ∧ (curveOf p' C.toCurveGroup).toAffine.Δ ≠ 0 := newCurve_curveOk p a b gx gy n h wc C hp hn hC
+
+/-- non-vacuity: the toy curve `y² = x³ + 7` over `F₄₃`, `G = (2, 12)`, `n = 31` is accepted (order check on; its
+embedding degree is small, so the MOV test refuses it when on), and each malformation is refused by the check that owns it -/
+example : refusal (newCurve 43 0 7 2 12 31 1 false true) = none := by decide +kernel
+example : refusal (newCurve 43 0 7 2 12 31 1 true true) = some "weak curve: " := by decide +kernel
+example : refusal (newCurve 43 0 7 2 13 31 1 true true) = some "Generator is not on the curve" := by decide +kernel
+example : refusal (newCurve 43 0 0 2 12 31 1 true true) = some "zero discriminant" := by decide +kernel
+example : refusal (newCurve 43 0 7 2 12 37 1 true true) = some "n is not the group order: " := by decide +kernel
+example : Gen.C01Ctor.group_checks 43 0 7 = none := by decide +kernel
 
 end Props.C01
